@@ -212,6 +212,9 @@ type TLSScenario struct {
 	Cred  string `json:"cred"`
 	Fault string `json:"fault"`
 	Pos   string `json:"pos"`
+	// Custom: the application supplies its own tls.Config (SetTLSConfig) instead of certificate files: "anycert" demands a
+	// client certificate without verifying it, "request" asks for one and accepts none, "verify" is the built-in policy
+	Custom string `json:"custom"`
 }
 
 type tlsRun struct {
@@ -392,13 +395,17 @@ func runTLS(rec *Recorder, p *pki, id int, s TLSScenario) {
 	server.SetTLSPort(tr.tlsp)
 	// the server builds its own tls.Config from the certificate material (NewTLSConfigFrom), as in production
 	server.ServerCert, server.ServerKey, server.CACerts = p.serverPEM, p.keyPEM, p.rootPEM
+	if s.Custom != "" {
+		mode := map[string]tls.ClientAuthType{"anycert": tls.RequireAnyClientCert, "request": tls.RequestClientCert, "verify": tls.RequireAndVerifyClientCert}[s.Custom]
+		server.SetTLSConfig(&tls.Config{Certificates: []tls.Certificate{p.serverCert}, ClientAuth: mode, ClientCAs: p.rootPool, MinVersion: tls.VersionTLS12})
+	}
 	if s.Rule {
 		server.AddAuthenticator(auth.NewCertificateAuthenticatorWith(auth.WithCommonName(ruleName)))
 	}
 	if s.Pass {
 		server.SetRequirePass(tlsPassword)
 	}
-	rec.Emit(Ev{"ev": "scenario", "rule": s.Rule, "pass": s.Pass, "cred": s.Cred, "fault": s.Fault, "pos": s.Pos})
+	rec.Emit(Ev{"ev": "scenario", "rule": s.Rule, "pass": s.Pass, "cred": s.Cred, "fault": s.Fault, "pos": s.Pos, "custom": s.Custom})
 	rec.mu.Lock()
 	rec.w.Flush()
 	rec.mu.Unlock()
